@@ -34,6 +34,7 @@ pub open spec fn entries(h: &Heap, m: &GcMap) -> Map<Primitive, Primitive> { map
 #[verifier::external_body] pub fn hm_remove(h: &mut Heap, m: &GcMap, k: &Primitive) -> (r: Option<Primitive>)
     ensures maps(final(h)) == maps(old(h)).insert(mid(m), entries(old(h), m).remove(*k)),
             r == (if entries(old(h), m).contains_key(*k) { Some(entries(old(h), m)[*k]) } else { None::<Primitive> }) { unimplemented!() }
+impl Primitive { pub fn verif_clone(&self) -> (r: Primitive) ensures r == *self { clone_prim(self) } }
 pub fn opt_map_not_nil(r: Result<Primitive, VErr>) -> (b: bool) ensures b == (r is Ok && r->Ok_0 != nil()) { match r { Ok(Primitive::Optional(None)) => false, Ok(_) => true, Err(_) => false } }
 """
 
@@ -49,7 +50,8 @@ RULES = [
     Rule("R9", "self . 0 . borrow_mut ( ) . clear ( ) ;", "hm_clear ( heap , self ) ;", why="HashMap::clear"),
     Rule("R9", "self . 0 . borrow_mut ( ) . remove ( & $$k )", "hm_remove ( heap , self , & $$k )", why="HashMap::remove"),
     Rule("R1", "self . get ( $$k ) . map ( | value | ! matches ! ( value , Primitive :: Optional ( None ) ) ) . unwrap_or ( false )", "opt_map_not_nil ( self . get ( $$k , heap ) )", why="Result::map + unwrap_or"),
-    Rule("R1", "key . clone ( )", "clone_prim ( key )", why="Primitive::clone"),
+    Rule("R10", "self . get ( $$k ) ?", "self . get ( $$k , heap ) ?", why="heap threaded"),
+    Rule("R1", "key . clone ( )", "key . verif_clone ( )", why="Primitive::clone"),
 ]
 
 SIGS = {
